@@ -535,3 +535,13 @@ import builtins as _builtins  # pylint: disable=g-import-not-at-top
 _builtins.MainOuter = MainOuter
 _builtins.main_fn = main_fn
 
+
+def join_none(first, sep=None, *rest):
+  """Positional parameter whose default is None, followed by *args."""
+  return record('join_none', {'first': first, 'sep': sep}, rest)
+
+
+def pos_none(a=None, b=0, /, c='d_c'):
+  """Positional-only parameters with defaults None and 0."""
+  return record('pos_none', {'a': a, 'b': b, 'c': c})
+
